@@ -76,9 +76,9 @@ def VProp.setAct {V} (p : VProp V) (o : Nat) (k : Key) (this : Recv) (v : V) : A
   | some f => .call f this v
 
 /-- `o.defineOwnPropertyStr/Sym(name, descr, throw)` (object.go:753 / :770) as an action. -/
-def defineAct {V} [DecidableEq V] (fixed : Bool) (undef : V) (mv : MView V) (o : Nat) (k : Key) (d : Desc V) :
+def defineAct {V} [DecidableEq V] (undef : V) (mv : MView V) (o : Nat) (k : Key) (d : Desc V) :
     Act (Stored V) V :=
-  match defineOwn fixed undef (mv.own o k) d (mv.ext o) with
+  match defineOwn undef (mv.own o k) d (mv.ext o) with
   | some s => .write o k s (mv.own o k).isNone
   | none => .fail
 
@@ -89,7 +89,7 @@ def descFull {V} (v : V) : Desc V :=
 
 /-- The tail of `Object.setStr/setIdx/setSym` after `setForeign*` returned `handled = false`
 (object.go:1479-1503, 1537-1561, 1573-1597 — transcribed once per copy below). -/
-def recvDefine {V} [DecidableEq V] (fixed : Bool) (undef : V) (mv : MView V) (k : Key) (v : V) (receiver : Recv) :
+def recvDefine {V} [DecidableEq V] (undef : V) (mv : MView V) (k : Key) (v : V) (receiver : Recv) :
     Act (Stored V) V :=
   match receiver with
   | .obj robj =>
@@ -97,9 +97,9 @@ def recvDefine {V} [DecidableEq V] (fixed : Bool) (undef : V) (mv : MView V) (k 
     | some (.prop desc) =>
       if desc.accessor then .fail
       else if !desc.writable then .fail
-      else defineAct fixed undef mv robj k (descValue v)
-    | some (.plain _) => defineAct fixed undef mv robj k (descValue v)
-    | none => defineAct fixed undef mv robj k (descFull v)
+      else defineAct undef mv robj k (descValue v)
+    | some (.plain _) => defineAct undef mv robj k (descValue v)
+    | none => defineAct undef mv robj k (descFull v)
   | .prim => .fail
 
 /-! ### copy 1: string keys (object.go:473 setOwnStr, :547 _setForeignStr, :593 setForeignStr, :1473 Object.setStr).
@@ -134,7 +134,7 @@ def setForeignStr {V} (mv : MView V) : List Nat → Key → V → Recv → Optio
         else some (setOwnStr mv rest name val)                                      -- :564
 end
 
-def objSetStr {V} [DecidableEq V] (fixed : Bool) (undef : V) (mv : MView V) (chain : List Nat) (name : Key) (val : V)
+def objSetStr {V} [DecidableEq V] (undef : V) (mv : MView V) (chain : List Nat) (name : Key) (val : V)
     (receiver : Recv) : Act (Stored V) V :=
   match chain with
   | [] => .fail
@@ -149,9 +149,9 @@ def objSetStr {V} [DecidableEq V] (fixed : Bool) (undef : V) (mv : MView V) (cha
           | some (.prop desc) =>
             if desc.accessor then .fail                                             -- :1482
             else if !desc.writable then .fail                                       -- :1486
-            else defineAct fixed undef mv robj name (descValue val)                 -- :1491
-          | some (.plain _) => defineAct fixed undef mv robj name (descValue val)
-          | none => defineAct fixed undef mv robj name (descFull val)               -- :1494
+            else defineAct undef mv robj name (descValue val)                 -- :1491
+          | some (.plain _) => defineAct undef mv robj name (descValue val)
+          | none => defineAct undef mv robj name (descFull val)               -- :1494
         | .prim => .fail                                                            -- :1502
 
 /-! ### copy 3: symbol keys (object.go:510 setOwnSym, :607 setForeignSym, :1567 Object.setSym). -/
@@ -185,7 +185,7 @@ def setForeignSym {V} (mv : MView V) : List Nat → Key → V → Recv → Optio
         else some (setOwnSym mv rest name val)                                      -- :628
 end
 
-def objSetSym {V} [DecidableEq V] (fixed : Bool) (undef : V) (mv : MView V) (chain : List Nat) (name : Key) (val : V)
+def objSetSym {V} [DecidableEq V] (undef : V) (mv : MView V) (chain : List Nat) (name : Key) (val : V)
     (receiver : Recv) : Act (Stored V) V :=
   match chain with
   | [] => .fail
@@ -200,9 +200,9 @@ def objSetSym {V} [DecidableEq V] (fixed : Bool) (undef : V) (mv : MView V) (cha
           | some (.prop desc) =>
             if desc.accessor then .fail
             else if !desc.writable then .fail
-            else defineAct fixed undef mv robj name (descValue val)                 -- :1585
-          | some (.plain _) => defineAct fixed undef mv robj name (descValue val)
-          | none => defineAct fixed undef mv robj name (descFull val)               -- :1588
+            else defineAct undef mv robj name (descValue val)                 -- :1585
+          | some (.plain _) => defineAct undef mv robj name (descValue val)
+          | none => defineAct undef mv robj name (descFull val)               -- :1588
         | .prim => .fail
 
 /-- The symbol copy as it was BEFORE commit f4bc093 (`receiver != o.val` at object.go:625): kept only to state the
@@ -242,7 +242,7 @@ def setForeignIdx {V} (mv : MView V) : List Nat → Key → V → Recv → Optio
         else some (setOwnIdx mv rest idx val)                                       -- :587
     else setForeignStr mv (o :: rest) idx val receiver                              -- :604
 
-def objSetIdx {V} [DecidableEq V] (fixed : Bool) (undef : V) (mv : MView V) (chain : List Nat) (name : Key) (val : V)
+def objSetIdx {V} [DecidableEq V] (undef : V) (mv : MView V) (chain : List Nat) (name : Key) (val : V)
     (receiver : Recv) : Act (Stored V) V :=
   match chain with
   | [] => .fail
@@ -257,18 +257,18 @@ def objSetIdx {V} [DecidableEq V] (fixed : Bool) (undef : V) (mv : MView V) (cha
           | some (.prop desc) =>
             if desc.accessor then .fail
             else if !desc.writable then .fail
-            else defineAct fixed undef mv robj name (descValue val)                 -- :1549
-          | some (.plain _) => defineAct fixed undef mv robj name (descValue val)
-          | none => defineAct fixed undef mv robj name (descFull val)               -- :1552
+            else defineAct undef mv robj name (descValue val)                 -- :1549
+          | some (.plain _) => defineAct undef mv robj name (descValue val)
+          | none => defineAct undef mv robj name (descFull val)               -- :1552
         | .prim => .fail
 
 /-- `Object.set` (object.go:1509): dispatch on the key kind. -/
-def objSet {V} [DecidableEq V] (fixed : Bool) (undef : V) (mv : MView V) (chain : List Nat) (k : Key) (val : V)
+def objSet {V} [DecidableEq V] (undef : V) (mv : MView V) (chain : List Nat) (k : Key) (val : V)
     (receiver : Recv) : Act (Stored V) V :=
   match k with
-  | .idx _ => objSetIdx fixed undef mv chain k val receiver
-  | .sym _ => objSetSym fixed undef mv chain k val receiver
-  | .str _ => objSetStr fixed undef mv chain k val receiver
+  | .idx _ => objSetIdx undef mv chain k val receiver
+  | .sym _ => objSetSym undef mv chain k val receiver
+  | .str _ => objSetStr undef mv chain k val receiver
 
 /-! ### Spec: OrdinarySet / OrdinarySetWithOwnDescriptor (ECMA-262 10.1.9.1-2) over a prototype chain. -/
 
